@@ -240,19 +240,21 @@ TrReturn ==
 
 
 (* ---- query response metadata (C16) ------------------------------------- *)
-RowSet(e) == {<<e.rows[i].name, e.rows[i].ty>> : i \in 1..Len(e.rows)}
+(* (a generic query message carries a hidden variant for its type parameters; it is skipped on the wire, so it is no sendable name) *)
+RowSet(e) == {<<e.rows[i].name, e.rows[i].ty>> : i \in {j \in 1..Len(e.rows) : e.rows[j].name # "__phantom"}}
+NRows(e) == Cardinality({j \in 1..Len(e.rows) : e.rows[j].name # "__phantom"})
 TrSchemas ==
     /\ IsEvent("Schemas")
     /\ stage = "idle"
     /\ Chk("C16", "response_table_is_available", l, E.verdict = "ok")
     /\ IF E.part = "contract"
        THEN /\ Chk("C16", "contract_table_is_the_union_of_its_parts_tables", l, RowSet(E) = EContractResponses(P))
-            /\ Chk("C16", "every_query_appears_once", l, Len(E.rows) = Cardinality(EContractResponses(P)))
+            /\ Chk("C16", "every_query_appears_once", l, NRows(E) = Cardinality(EContractResponses(P)))
             /\ Chk("C16", "contract_schema_is_the_any_of_of_its_parts", l, E.anyof = Len(P.parts))
        ELSE /\ Chk("BIND", "schemas_part_exists", l, HasPart(P, E.part))
             /\ Chk("C16", "each_query_maps_to_the_schema_of_its_declared_response_type", l,
                    RowSet(E) = EResponses(P.parts[PartIx(P, E.part)]))
-            /\ Chk("C16", "every_query_appears_once", l, Len(E.rows) = Cardinality(EResponses(P.parts[PartIx(P, E.part)])))
+            /\ Chk("C16", "every_query_appears_once", l, NRows(E) = Cardinality(EResponses(P.parts[PartIx(P, E.part)])))
     /\ UNCHANGED <<prog, pv, stage, ep, doc, dec, ran, res, origin, fx>>
 
 (* ---- remote helpers (C10) ------------------------------------------------ *)
@@ -322,7 +324,14 @@ TrBuilderBuild ==
     /\ fx' = [fx EXCEPT !.bld = B!NoBuilder]
     /\ UNCHANGED <<prog, pv, stage, ep, doc, dec, ran, res, origin>>
 
-TStep == TrBuilderNew \/ TrBuilderSet \/ TrBuilderBuild \/ TrBuild \/ TrSchemas \/ TrRemoteMsg \/ TrRemoteQueryReturn \/ TrReset \/ TrLists \/ TrEncode \/ TrDeliver \/ TrWrapperDecode \/ TrStructDecode
+(* ---- generated code panicked while the harness was driving it (the panic is data, not a tool failure) ---- *)
+PropOfPanic(w) == CASE w = "encode" -> "C01" [] w = "schemas" -> "C16" [] w = "multitest" -> "C12" [] OTHER -> "C10"
+TrPanic ==
+    /\ IsEvent("Panic")
+    /\ Chk(PropOfPanic(E.where), "generated_code_does_not_panic", l, FALSE)
+    /\ UNCHANGED <<prog, pv, stage, ep, doc, dec, ran, res, origin, fx>>
+
+TStep == TrPanic \/ TrBuilderNew \/ TrBuilderSet \/ TrBuilderBuild \/ TrBuild \/ TrSchemas \/ TrRemoteMsg \/ TrRemoteQueryReturn \/ TrReset \/ TrLists \/ TrEncode \/ TrDeliver \/ TrWrapperDecode \/ TrStructDecode
          \/ TrSilentDecode \/ TrOverrideHandler \/ TrHandler \/ TrReturn
 
 (* the design-level invariants of Runtime.tla, evaluated in every state the trace reaches *)
